@@ -63,19 +63,6 @@ theorem getState_some_of_vget {f : Fsm} {i : Nat} {v : V} (h : vget (view f) i =
   | some s => exact ⟨s, rfl⟩
 
 
-theorem vget_of_le {vs : List V} {p : Nat} (h0 : p ≠ 0) (hle : p ≤ vs.length) : ∃ v, vget vs p = some v := by
-  unfold vget
-  simp only [h0, if_false]
-  exact ⟨vs[p - 1]'(by omega), by simp⟩
-
-theorem le_of_vget {vs : List V} {p : Nat} {v : V} (h : vget vs p = some v) : p ≠ 0 ∧ p ≤ vs.length := by
-  unfold vget at h
-  by_cases h0 : p = 0
-  · simp [h0] at h
-  · simp only [h0, if_false] at h
-    have := (List.getElem?_eq_some_iff.1 h).1
-    exact ⟨h0, by omega⟩
-
 /-- `get_or_create_state_with_attributes` for `<state id=n>` inside state `p` is `vdecl` on the view -/
 theorem decl_sim (σ : RS) (a : Attrs) (n : Str) (p : Nat) (hp : p ≠ 0)
     (hok : IdsOk (view σ.fsm)) (hpv : ∃ v, vget (view σ.fsm) p = some v)
